@@ -21,6 +21,8 @@ impl<P: Write> WriteBuffer for IoBuffer<P> {
                     if n == 0 {
                         if pos != 0 {
                             self.poisoned = true;
+                            #[cfg(feature = "verif")]
+                            crate::common::verif::emit(crate::common::verif::Event::Poison);
                         }
                         return Err(io::ErrorKind::BrokenPipe.into());
                     } else {
@@ -30,6 +32,8 @@ impl<P: Write> WriteBuffer for IoBuffer<P> {
                 Err(e) => {
                     if pos != 0 {
                         self.poisoned = true;
+                        #[cfg(feature = "verif")]
+                        crate::common::verif::emit(crate::common::verif::Event::Poison);
                         return Err(e);
                     }
                 }
